@@ -11,3 +11,16 @@ with open(out, "w") as fh:
     for q in sorted(prog.functions):
         fh.write(q + "\n")
 print(len(prog.functions), "functions ->", out)
+out2 = os.path.join(os.path.dirname(out), "baseline_classes.txt")
+with open(out2, "w") as fh:
+    for q in sorted(prog.classes):
+        fh.write(q + "\n")
+print(len(prog.classes), "classes ->", out2)
+
+import json
+from vstatic.renames import members_of_trees, BASELINE_MEMBERS
+if prog.renames:
+    sys.exit("the tree is not the baseline: renames were detected: %s" % prog.renames)
+with open(BASELINE_MEMBERS, "w") as fh:
+    json.dump(members_of_trees({short: mi.tree for short, mi in prog.modules.items()}), fh, indent=0, sort_keys=True)
+print("members ->", BASELINE_MEMBERS)
